@@ -378,6 +378,10 @@ func (s *writer) routine() {
 
 		if len(packets) > 0 {
 			for _, p := range packets {
+				// before anything is added to the packet: a message may still carry the version of its
+				// publisher (a retained one does), and an MQTT 3.1.1 packet takes no properties
+				p.SetVersion(s.version)
+
 				if pack, ok := p.(*mqttp.Publish); ok {
 					if _, expireLeft, expired := pack.Expired(); expired {
 						if pack.QoS() != mqttp.QoS0 {
@@ -399,8 +403,6 @@ func (s *writer) routine() {
 						p = s.aliased(pack)
 					}
 				}
-
-				p.SetVersion(s.version)
 
 				if buf, e := mqttp.Encode(p); e != nil {
 					s.log.Error("packet encode", zap.String("ClientID", s.id), zap.Error(err))
@@ -495,13 +497,20 @@ func (s *writer) setTopicAlias(pkt *mqttp.Publish) {
 				return
 			}
 
-			s.topicAliasCurrMax++
-			alias = s.topicAliasCurrMax
-			s.topicAlias[pkt.Topic()] = alias
+			alias = s.topicAliasCurrMax + 1
 		}
 
-		if err := pkt.PropertySet(mqttp.PropertyTopicAlias, alias); err == nil && exists {
+		// an alias counts as bound only once it has really been put into a packet: one recorded for
+		// a packet that went out without it would be used alone afterwards, unknown to the client
+		if err := pkt.PropertySet(mqttp.PropertyTopicAlias, alias); err != nil {
+			return
+		}
+
+		if exists {
 			_ = pkt.SetTopic("")
+		} else {
+			s.topicAliasCurrMax = alias
+			s.topicAlias[pkt.Topic()] = alias
 		}
 	}
 }
